@@ -3,6 +3,7 @@ package checks
 
 import (
 	"fmt"
+	"os"
 
 	"github.com/itchyny/gojq"
 	"verif/mc/probe"
@@ -21,6 +22,14 @@ type Out struct {
 }
 
 const DefaultBudget = 20000
+
+// RepoDir is the repository under test: /repo, unless VERIF_REPO points the whole build at a scratch copy.
+func RepoDir() string {
+	if r := os.Getenv("VERIF_REPO"); r != "" {
+		return r
+	}
+	return "/repo"
+}
 
 func (o Out) String() string {
 	s := "["
